@@ -300,7 +300,45 @@ def immutables(prog: Program, rep) -> None:
                 rep.check(ok, "immutable-long-lived-object", fi.qualname, U(node), "Evaluator.num_evals is read only by the final report", fi.loc(node))
 
 
+def accumulating_state(prog: Program, rep) -> None:
+    """an attribute of a solver object that is updated relative to its own previous value (augmented assignment, `.append`,
+    or `self.a = f(self.a)`) anywhere outside __init__ accumulates history; it must be given a fresh value by a plain store
+    in solve() on the straight-line part before the first loop, i.e. at the start of every solve."""
+    for q in ("pygradflow.solver.Solver", "pygradflow.integration.integration_solver.IntegrationSolver"):
+        c = prog.cls(q)
+        sv = c.methods.get("solve")
+        if sv is None:
+            raise AnalysisError(f"{q}.solve has vanished")
+        ff = facts_for(sv)
+        first_loop = min([s.index for s in ff.order if isinstance(s.stmt, (ast.While, ast.For)) and not s.loops], default=10 ** 9)
+        fresh = {}
+        for s in ff.order:
+            if isinstance(s.stmt, ast.Assign) and not s.loops and s.index < first_loop:
+                for t in s.stmt.targets:
+                    if is_self_attr(t) and not any(is_self_attr(n, t.attr) and isinstance(n.ctx, ast.Load) for n in ast.walk(s.stmt.value)):
+                        fresh.setdefault(t.attr, s)
+        accum = {}
+        for m in c.methods.values():
+            if m.name in ("__init__",):
+                continue
+            for n in own_nodes(m.node):
+                if isinstance(n, ast.AugAssign) and is_self_attr(n.target):
+                    accum.setdefault(n.target.attr, (m, n))
+                elif isinstance(n, ast.Assign):
+                    for t in n.targets:
+                        if is_self_attr(t) and any(is_self_attr(k, t.attr) and isinstance(k.ctx, ast.Load) for k in ast.walk(n.value)):
+                            accum.setdefault(t.attr, (m, n))
+                elif isinstance(n, ast.Call) and isinstance(n.func, ast.Attribute) and n.func.attr in ("append", "extend", "add", "update", "insert") and is_self_attr(n.func.value):
+                    accum.setdefault(n.func.value.attr, (m, n))
+        for a, (m, n) in sorted(accum.items()):
+            rep.check(a in fresh, "accumulating-state-reinitialised", m.qualname, short(n) if isinstance(n, ast.stmt) else U(n),
+                      f"{c.name}.{a} is updated relative to its previous value; solve() gives it a fresh value before its first loop" +
+                      ("" if a in fresh else " (no such store found: the value survives from one solve to the next)"), m.loc(n))
+        rep.note(f"{c.name}: accumulating attributes {sorted(accum)}; freshly stored at the start of solve: {sorted(fresh)}")
+
+
 def per_solve(prog: Program, rep) -> None:
+    accumulating_state(prog, rep)
     scls = prog.cls("pygradflow.solver.Solver")
     sv = scls.methods["solve"]
     ff = facts_for(sv)
